@@ -124,6 +124,10 @@ def ask_counters(ps, state, api, kw, fields, exp_per, exp_total, total_open, cla
 
     for nowrap, per, err, res in Asker(ps, state).forms(api, kw):
         form = "%s(%s=%s, nowrap=%s)" % (api, kw, per, nowrap)
+        # result classes (of the answer the statement demands) that were put to the code
+        classes.add("%s:%s:%s" % ((api, kw, "dict" if exp_per else "{}") if per else
+                                  (api, "total", "None" if exp_total is None else "tuple")))
+        classes.add("%s:nowrap=%s" % (api, nowrap))
         if err is not None:
             report("%s:exception" % api, "%s raised %s" % (form, err))
             continue
@@ -131,7 +135,6 @@ def ask_counters(ps, state, api, kw, fields, exp_per, exp_total, total_open, cla
             if type(res) is not dict:
                 report("%s:%s-type" % (api, kw), "%s -> %r, expected a dict with keys %r" % (form, res, sorted(exp_per)))
                 continue
-            classes.add("%s:%s:%s" % (api, kw, "{}" if not res else "dict"))
             if set(res) != set(exp_per):
                 report("%s:%s-keys" % (api, kw), "%s lists %r, the kernel lists %r" % (form, sorted(res), sorted(exp_per)))
             line_bad = set()
@@ -146,7 +149,6 @@ def ask_counters(ps, state, api, kw, fields, exp_per, exp_total, total_open, cla
             if res is not None and got is None:
                 report("%s:total-type" % api, "%s -> %r" % (form, res))
                 continue
-            classes.add("%s:total:%s" % (api, "None" if res is None else "tuple"))
             ok = (got == exp_total) or (total_open and exp_total is None and got == dict.fromkeys(fields, 0))
             if ok:
                 continue
@@ -314,6 +316,8 @@ REQUIRED_ANSWER = {
     "net_io_counters:total:tuple", "disk_io_counters:perdisk:{}", "disk_io_counters:perdisk:dict",
     "disk_io_counters:total:None", "disk_io_counters:total:tuple",
     "net:fmt:modern", "net:fmt:old", "usage:undefined", "usage:100", "usage:0", "usage:between",
+    "net_io_counters:nowrap=False", "net_io_counters:nowrap=True",
+    "disk_io_counters:nowrap=False", "disk_io_counters:nowrap=True",
 } | {"disk:layout:%d" % l for l in NSLOTS}
 
 
@@ -452,6 +456,41 @@ def trace_sig(l):
     return "trace:net_io_counters" if inp["kind"] == "net" else "trace:disk_usage"
 
 
+def judge(ctx, lines, name="trace-validation"):
+    """TLC evaluates F on every recorded input and compares with the recorded
+    answer; returns the 1-based indices of the rejected records."""
+    lines = list(lines)
+    # canaries (independent of the code): a synthetic record with the right
+    # answer must be accepted and one with errin/dropin swapped must be
+    # rejected, otherwise the binding between answers and specification is broken
+    cols = list(range(1, 17))
+    right = dict(zip(NET_FIELDS, (9, 1, 10, 2, 3, 11, 4, 12)))
+    wrong = dict(right, errin=4, dropin=3)
+    n_real = len(lines)
+    for g in (right, wrong):
+        lines.append({"inp": {"kind": "net", "fmt": "modern", "tab": {"eth0:1": cols}},
+                      "got": {"pernic": {"eth0:1": g}, "total": g}})
+    d = tlc.scratch()
+    tf = os.path.join(d, "trace.ndjson")
+    with open(tf, "w") as f:
+        for l in lines:
+            f.write(json.dumps({"inp": l["inp"], "got": l["got"]}) + "\n")
+    cfg = os.path.join(d, "t.cfg")
+    tlc.write_cfg(cfg, consts("quick"), init="TInit", next_="TNext", invariants=["Match", "TraceInvariants"])
+    r = tlc.run("IoCountersTrace", cfg, workers=4, env={"TRACE_FILE": tf}, timeout=900)
+    ctx.tlc(name, r)
+    shutil.rmtree(d, ignore_errors=True)
+    if r.violated:
+        raise core.Machinery("trace validation: TLC reports %s on a recorded input (structural invariant of the specification)" % r.violated)
+    if r.distinct != 2 * len(lines):
+        raise core.Machinery("trace validation consumed %d of %d records" % (r.distinct // 2, len(lines)))
+    rej = sorted({int(p[1].strip()) for p in r.printed if p[0] == "REJECTED"})
+    if n_real + 1 in rej or n_real + 2 not in rej:
+        raise core.Machinery("trace validation misjudged the canary records (rejected: %r)" % [i for i in rej if i > n_real])
+    rej = [i for i in rej if i <= n_real]
+    return rej
+
+
 def trace_validate(ctx, n):
     jobs = [(ctx.seed * 1000 + i, n // 16 + 1) for i in range(16)]
     res = forkpool.map_fork(rand_chunk, jobs)
@@ -463,37 +502,12 @@ def trace_validate(ctx, n):
     for l in [l for l in lines if "error" in l][:3]:
         ctx.disagree(trace_sig(l) + ":exception", "the API failed on a kernel-formatted table: %s (input %s)"
                      % (l["error"], json.dumps(l["inp"], sort_keys=True)), l)
-    lines = [l for l in lines if "got" in l]
     need("random inputs of kind", {"net", "disk", "usage"}, {l["inp"]["kind"] for l in lines})
     need("random diskstats layouts", set(NSLOTS),
          {d["layout"] for l in lines if l["inp"]["kind"] == "disk" for d in l["inp"]["devs"].values()})
-    # canary: one deliberately corrupted copy of a good record must be rejected,
-    # otherwise the binding between recorded answers and specification is broken
-    base = next(l for l in lines if l["inp"]["kind"] == "net" and l["inp"]["tab"])
-    canary = json.loads(json.dumps(base))
-    k = sorted(canary["got"]["pernic"])[0]
-    canary["got"]["pernic"][k]["errin"], canary["got"]["pernic"][k]["dropin"] = \
-        canary["got"]["pernic"][k]["dropin"] + 1, canary["got"]["pernic"][k]["errin"]
-    lines.append(canary)
-    d = tlc.scratch()
-    tf = os.path.join(d, "trace.ndjson")
-    with open(tf, "w") as f:
-        for l in lines:
-            f.write(json.dumps({"inp": l["inp"], "got": l["got"]}) + "\n")
-    cfg = os.path.join(d, "t.cfg")
-    tlc.write_cfg(cfg, consts("quick"), init="TInit", next_="TNext", invariants=["Match", "TraceInvariants"])
-    r = tlc.run("IoCountersTrace", cfg, workers=1, env={"TRACE_FILE": tf}, timeout=900)
-    ctx.tlc("trace-validation", r)
-    shutil.rmtree(d, ignore_errors=True)
-    if r.violated:
-        raise core.Machinery("trace validation: TLC reports %s on a recorded input (structural invariant of the specification)" % r.violated)
-    if r.distinct != 2 * len(lines):
-        raise core.Machinery("trace validation consumed %d of %d records" % (r.distinct // 2, len(lines)))
-    rej = sorted({int(p[1].strip()) for p in r.printed if p[0] == "REJECTED"})
-    if len(lines) not in rej:
-        raise core.Machinery("trace validation accepted the corrupted canary record")
-    rej = [i for i in rej if i != len(lines)]
-    lines.pop()
+    nerr = sum(1 for l in lines if "error" in l)
+    lines = [l for l in lines if "got" in l]
+    rej = judge(ctx, lines)
     seen = {}
     for i in rej:
         l = lines[i - 1]
@@ -506,7 +520,7 @@ def trace_validate(ctx, n):
         ctx.case(json.dumps(l["inp"], sort_keys=True))
     ctx.cov["traces_validated_against_impl"] += len(lines)
     ctx.cov.setdefault("replay", {})["trace-validation"] = {
-        "records": len(lines), "rejected": len(rej), "canary_rejected": True,
+        "records": len(lines), "rejected": len(rej), "api_raised": nerr, "canary_rejected": True,
         "by_kind": {k: sum(1 for l in lines if l["inp"]["kind"] == k) for k in ("net", "disk", "usage")}}
     if lines:
         ctx.sample({"kind": "recorded trace line", "line": lines[len(lines) // 3]})
@@ -515,8 +529,14 @@ def trace_validate(ctx, n):
 # ---------------------------------------------------------------------------
 
 def warm(ctx):
-    rd = tlc.dump_cached("IoCounters", consts("quick"), view=None)
-    functional.events_of(rd)
+    for tier in ("quick", "thorough"):
+        rd = tlc.dump_cached("IoCounters", consts(tier), view=None)
+        functional.events_of(rd)
+
+
+def record_again(item):
+    w, ps = template()
+    return record(w, ps, item["inp"], item["scale"], {})
 
 
 def replay_one(ctx, path):
@@ -529,7 +549,17 @@ def replay_one(ctx, path):
             ctx.disagree("conf:" + sig, text, case)
         ctx.case(json.dumps(case, sort_keys=True))
     else:
-        raise core.Machinery("replay of recorded trace lines: rerun with the same VERIF_SEED")
+        l = case
+        st, val = forkpool.map_fork(record_again, [l])[0]
+        if st != "ok":
+            raise core.Machinery("replay failed: %s" % (val,))
+        got, err = val
+        if err is not None:
+            ctx.disagree(trace_sig(l) + ":exception", "the API failed on a kernel-formatted table: %s" % err, l)
+        elif judge(ctx, [{"inp": l["inp"], "got": got}], "replay"):
+            ctx.disagree(trace_sig(l), "TLC rejects the recorded answer: input %s, scale %d, code answered %s"
+                         % (json.dumps(l["inp"], sort_keys=True), l["scale"], json.dumps(got, sort_keys=True)), l)
+        ctx.case(json.dumps(l["inp"], sort_keys=True))
 
 
 def check(ctx):
@@ -573,7 +603,7 @@ def check(ctx):
     for k in ("net", "disk", "usage"):
         ks = [cs for cs in cases if cs[0]["inp"]["kind"] == k]
         ctx.sample({"kind": "enumerated " + k, "case": ks[len(ks) // 2]})
-    trace_validate(ctx, 20000 if thorough else 4000)
+    trace_validate(ctx, 60000 if thorough else 4000)
 
 
 def main(prop, argv):
